@@ -10,6 +10,10 @@
 //               N (pc x pc additive noise covariance); optional G (p x d'), g (p x 1): the map is
 //               x -> A x + b + g o (G x) o (G x); optional noise_means ((aug+aug2) x comps): written on the
 //               noise rows of the means after the augmentation.
+//               meta intrude=1: every function / model callback handed to the transform first lets an "intruder"
+//               (common.hpp) run a complete unscented_transform of the same overload on an independent twin belief
+//               of the same shape (other means / covariances) through another function: user code called back by the
+//               library may itself use the library.  The results of the outer transform must not change.
 #define VF_MAIN
 #include "common.hpp"
 #include <BayesFilters/AdditiveMeasurementModel.h>
@@ -29,8 +33,10 @@ static VectorDescription desc(long lin, long circ, long noise, bool quat) {
 
 // x -> A x + b, or (quad) x -> A x + b + g o (G x) o (G x) with component-wise products
 struct AffMap {
-    MatrixXd A, b, G, g; bool quad = false;
+    MatrixXd A, b, G, g; bool quad = false; bool intrudes = false;
+    void hook() const { if (intrudes) vf::intrude(); }
     MatrixXd operator()(const Ref<const MatrixXd>& X) const {
+        hook();
         MatrixXd Y = A * X + b.replicate(1, X.cols());
         if (quad) {
             MatrixXd U = G * X;
@@ -46,8 +52,8 @@ struct HStateModel : public StateModel {
     void propagate(const Ref<const MatrixXd>& cur, Ref<MatrixXd> prop) override { prop = f(cur); }
     void motion(const Ref<const MatrixXd>& cur, Ref<MatrixXd> mot) override { mot = f(cur); }
     bool setProperty(const std::string&) override { return false; }
-    VectorDescription getInputDescription() override { return in; }
-    VectorDescription getStateDescription() override { return out; }
+    VectorDescription getInputDescription() override { f.hook(); return in; }
+    VectorDescription getStateDescription() override { f.hook(); return out; }
 };
 
 struct HAdditiveStateModel : public AdditiveStateModel {
@@ -55,8 +61,8 @@ struct HAdditiveStateModel : public AdditiveStateModel {
     HAdditiveStateModel(const AffMap& f, const VectorDescription& out, const MatrixXd& N) : f(f), out(out), N(N) {}
     void propagate(const Ref<const MatrixXd>& cur, Ref<MatrixXd> prop) override { prop = f(cur); }
     bool setProperty(const std::string&) override { return false; }
-    VectorDescription getStateDescription() override { return out; }
-    MatrixXd getNoiseCovarianceMatrix() override { return N; }
+    VectorDescription getStateDescription() override { f.hook(); return out; }
+    MatrixXd getNoiseCovarianceMatrix() override { f.hook(); return N; }
 };
 
 template <class Base>
@@ -66,15 +72,47 @@ struct HMeas : public Base {
     bool freeze(const Data&) override { return true; }
     std::pair<bool, Data> measure(const Data&) const override { return std::make_pair(false, Data()); }
     std::pair<bool, Data> predictedMeasure(const Ref<const MatrixXd>& cur) const override {
-        if (fail) return std::make_pair(false, Data());
+        if (fail) { f.hook(); return std::make_pair(false, Data()); }
         MatrixXd y = f(cur);
         return std::make_pair(true, Data(std::move(y)));
     }
     std::pair<bool, Data> innovation(const Data&, const Data&) const override { return std::make_pair(false, Data()); }
-    std::pair<bool, MatrixXd> getNoiseCovarianceMatrix() const override { return std::make_pair(true, N); }
-    VectorDescription getInputDescription() const override { return in; }
-    VectorDescription getMeasurementDescription() const override { return out; }
+    std::pair<bool, MatrixXd> getNoiseCovarianceMatrix() const override { f.hook(); return std::make_pair(true, N); }
+    VectorDescription getInputDescription() const override { f.hook(); return in; }
+    VectorDescription getMeasurementDescription() const override { f.hook(); return out; }
 };
+
+// one complete transform of the given overload (used for the subject and, with other data, for the intruder)
+static void run_transform(long overload, const GaussianMixture& mix, const sigma_point::UTWeight& w, const AffMap& f, bool fail,
+                          const VectorDescription& din, const VectorDescription& dout, const MatrixXd& N,
+                          bool& valid, GaussianMixture& out, MatrixXd& cross) {
+    valid = true;
+    if (overload == 0) {
+        vf::Entry e("sigma_point::unscented_transform(FunctionEvaluation)");
+        sigma_point::FunctionEvaluation fe = [&](const Ref<const MatrixXd>& X) -> std::tuple<bool, Data, VectorDescription> {
+            if (fail) { f.hook(); return std::make_tuple(false, Data(), dout); }
+            MatrixXd y = f(X);
+            return std::make_tuple(true, Data(std::move(y)), dout);
+        };
+        std::tie(valid, out, cross) = sigma_point::unscented_transform(mix, w, fe);
+    } else if (overload == 1) {
+        vf::Entry e("sigma_point::unscented_transform(StateModel)");
+        HStateModel m(f, din, dout);
+        std::tie(out, cross) = sigma_point::unscented_transform(mix, w, static_cast<StateModel&>(m));
+    } else if (overload == 2) {
+        vf::Entry e("sigma_point::unscented_transform(AdditiveStateModel)");
+        HAdditiveStateModel m(f, dout, N);
+        std::tie(out, cross) = sigma_point::unscented_transform(mix, w, static_cast<AdditiveStateModel&>(m));
+    } else if (overload == 3) {
+        vf::Entry e("sigma_point::unscented_transform(MeasurementModel)");
+        HMeas<MeasurementModel> m(f, din, dout, N, fail);
+        std::tie(valid, out, cross) = sigma_point::unscented_transform(mix, w, static_cast<MeasurementModel&>(m));
+    } else {
+        vf::Entry e("sigma_point::unscented_transform(AdditiveMeasurementModel)");
+        HMeas<AdditiveMeasurementModel> m(f, din, dout, N, fail);
+        std::tie(valid, out, cross) = sigma_point::unscented_transform(mix, w, static_cast<AdditiveMeasurementModel&>(m));
+    }
+}
 
 static void out_vec(const std::string& name, const VectorXd& v) { vf::out_mat(name, v.transpose()); }
 
@@ -116,31 +154,31 @@ int main() {
         if (!fail && c.has_mat("G")) { f.quad = true; f.G = c.mat("G"); f.g = c.mat("g"); }
         const MatrixXd& N = c.mat("N");
         bool valid = true; GaussianMixture out; MatrixXd cross;
-        if (overload == 0) {
-            vf::Entry e("sigma_point::unscented_transform(FunctionEvaluation)");
-            sigma_point::FunctionEvaluation fe = [&](const Ref<const MatrixXd>& X) -> std::tuple<bool, Data, VectorDescription> {
-                if (fail) return std::make_tuple(false, Data(), dout);
-                MatrixXd y = f(X);
-                return std::make_tuple(true, Data(std::move(y)), dout);
-            };
-            std::tie(valid, out, cross) = sigma_point::unscented_transform(mix, *w, fe);
-        } else if (overload == 1) {
-            vf::Entry e("sigma_point::unscented_transform(StateModel)");
-            HStateModel m(f, din, dout);
-            std::tie(out, cross) = sigma_point::unscented_transform(mix, *w, static_cast<StateModel&>(m));
-        } else if (overload == 2) {
-            vf::Entry e("sigma_point::unscented_transform(AdditiveStateModel)");
-            HAdditiveStateModel m(f, dout, N);
-            std::tie(out, cross) = sigma_point::unscented_transform(mix, *w, static_cast<AdditiveStateModel&>(m));
-        } else if (overload == 3) {
-            vf::Entry e("sigma_point::unscented_transform(MeasurementModel)");
-            HMeas<MeasurementModel> m(f, din, dout, N, fail);
-            std::tie(valid, out, cross) = sigma_point::unscented_transform(mix, *w, static_cast<MeasurementModel&>(m));
-        } else {
-            vf::Entry e("sigma_point::unscented_transform(AdditiveMeasurementModel)");
-            HMeas<AdditiveMeasurementModel> m(f, din, dout, N, fail);
-            std::tie(valid, out, cross) = sigma_point::unscented_transform(mix, *w, static_cast<AdditiveMeasurementModel&>(m));
+        const bool intrude = c.mi("intrude", 0) != 0;
+        f.intrudes = intrude;
+        if (intrude) {
+            // the twin: same shape and layout, other means (unit quaternions stay unit quaternions), other covariances,
+            // another function of the same shapes (for quaternion rows -L(r) = L(-r) is again a rotation); never fails
+            GaussianMixture twin(mix);
+            twin.mean() = -mix.mean();
+            if (lin > 0) twin.mean().topRows(lin) = (0.5 * mix.mean().topRows(lin).array() + 1.0).matrix();
+            if (!quat && circ > 0) twin.mean().middleRows(lin, circ) = (mix.mean().middleRows(lin, circ).array() + 0.3).matrix();
+            if (q + q2 > 0) twin.mean().bottomRows(q + q2) = (0.25 * mix.mean().bottomRows(q + q2).array() - 0.5).matrix();
+            twin.covariance() = 0.5 * mix.covariance();
+            AffMap f2;
+            f2.A = fail ? MatrixXd::Constant(dout.total_size(), din.total_size(), 0.125) : MatrixXd(-f.A);
+            f2.b = fail ? MatrixXd::Constant(dout.total_size(), 1, -0.5) : MatrixXd(0.5 * f.b);
+            if (f.quad) { f2.quad = true; f2.G = 0.5 * f.G; f2.g = -f.g; }
+            const MatrixXd N2 = 3.0 * N;
+            sigma_point::UTWeight w2(din, alpha, beta, kappa);
+            vf::set_intruder([=]() {
+                bool v2; GaussianMixture o2; MatrixXd x2;
+                run_transform(overload, twin, w2, f2, false, din, dout, N2, v2, o2, x2);
+            });
         }
+        run_transform(overload, mix, *w, f, fail, din, dout, N, valid, out, cross);
+        if (intrude) vf::out_int("intruder_calls", vf::intruder_state().calls);
+        vf::clear_intruder();
         vf::out_int("valid", valid ? 1 : 0);
         if (valid) {
             vf::out_int("components", out.components);
